@@ -42,19 +42,26 @@ WellKnownItu == [n \in {"recommendation", "question", "administration", "network
                       [] n = "network-operator" -> "3" [] n = "identified-organization" -> "4" [] OTHER -> "5"]
 WellKnownIso == [n \in {"standard", "registration-authority", "member-body", "identified-organization"} |->
                     CASE n = "standard" -> "0" [] n = "registration-authority" -> "1" [] n = "member-body" -> "2" [] OTHER -> "3"]
+\* below itu-t(0) recommendation(0) the arcs are identified by the letters a(1) .. z(26) (X.660 A.2)
+Letters == <<"a", "b", "c", "d", "e", "f", "g", "h", "i", "j", "k", "l", "m", "n", "o", "p", "q", "r", "s", "t", "u", "v", "w", "x", "y", "z">>
+LetterNo == <<"1", "2", "3", "4", "5", "6", "7", "8", "9", "10", "11", "12", "13", "14", "15", "16", "17", "18", "19", "20", "21", "22", "23", "24", "25", "26">>
+LetterArc(name) == LetterNo[CHOOSE i \in 1..26 : Letters[i] = name]
 \* the number of arc number i (1-based) of `arcs', whose root number is `root'
 ArcNumber(arc, i, root) ==
     IF arc.form \in {"num", "namenum"} THEN arc.n              \* a written number always wins
     ELSE IF i = 1 THEN WellKnownRoot[arc.name]
     ELSE IF root = "0" THEN WellKnownItu[arc.name]
     ELSE WellKnownIso[arc.name]
+UnderRecommendation(arcs) == Len(arcs) >= 3 /\ ArcNumber(arcs[1], 1, "") = "0" /\ ArcNumber(arcs[2], 2, "0") = "0"
 NameFormOK(arcs) ==    \* name-only arcs are used where X.680 allows them
     \A i \in DOMAIN arcs : arcs[i].form = "name" =>
         \/ i = 1 /\ arcs[i].name \in DOMAIN WellKnownRoot
         \/ i = 2 /\ ArcNumber(arcs[1], 1, "") = "0" /\ arcs[i].name \in DOMAIN WellKnownItu
         \/ i = 2 /\ ArcNumber(arcs[1], 1, "") = "1" /\ arcs[i].name \in DOMAIN WellKnownIso
+        \/ i = 3 /\ UnderRecommendation(arcs) /\ arcs[i].name \in {Letters[k] : k \in 1..26}
 OidArcs(arcs) == LET root == IF arcs = <<>> THEN "" ELSE ArcNumber(arcs[1], 1, "") IN
-                 [i \in DOMAIN arcs |-> ArcNumber(arcs[i], i, root)]
+                 [i \in DOMAIN arcs |-> IF i = 3 /\ arcs[i].form = "name" /\ UnderRecommendation(arcs) THEN LetterArc(arcs[i].name)
+                                        ELSE ArcNumber(arcs[i], i, root)]
 
 Lookup(decl, name) == (CHOOSE i \in DOMAIN decl : decl[i].n = name)
 ToSet(s) == {s[i] : i \in DOMAIN s}
